@@ -110,7 +110,7 @@ open(f"{root}/baseline_stable_pass.txt", "w").write("\n".join(base["stable_pass"
 open(f"{root}/baseline_always_fail.txt", "w").write("\n".join(base.get("always_fail", [])) + "\n")
 for a, area in areas.items():
     wt = f"{root}/wt_{a}"
-    kinds = KINDS_1 if rnd == 1 else KINDS_9 if rnd >= 9 else KINDS_8 if rnd == 8 else KINDS_7 if rnd == 7 else KINDS_6 if rnd == 6 else KINDS_5 if rnd == 5 else KINDS_4 if rnd == 4 else KINDS_2
+    kinds = KINDS_1 if rnd == 1 else KINDS_7 if rnd == 10 else KINDS_9 if rnd >= 9 else KINDS_8 if rnd == 8 else KINDS_7 if rnd == 7 else KINDS_6 if rnd == 6 else KINDS_5 if rnd == 5 else KINDS_4 if rnd == 4 else KINDS_2
     open(f"{root}/prompt_{a}.txt", "w").write(f"""You are helping test a code-analysis tool for false alarms. You work ONLY inside your own scratch git worktree: {wt} (a detached worktree of the Python library flowjax, a JAX/Equinox library of bijections, distributions, normalizing flows and training loops). Do NOT read or write anything under /verif, /root/.vp, /root/.claude, /repo, or any other directory under /tmp.
 
 TASK: produce SIX independent, strictly BEHAVIOUR-PRESERVING refactorings (call them R1..R6) of the library source in this area: {area}. Each must be the kind of commit a maintainer would plausibly make and a reviewer would accept as a pure refactor / clean-up, for example: {kinds}. Make them non-trivial (each should touch at least a few lines of real code, not only comments) and DIFFERENT in kind from each other; spread them over the files of the area. They must NOT change any observable behaviour for any input (values, shapes, errors raised and their types, randomness/key usage, gradients, pytree structure of the models, numerical stability: do not replace a numerically stable formula by a mathematically equivalent unstable one, and do not change the order of floating-point operations).
